@@ -6,7 +6,7 @@
 //   C <unit_on> <ng> (k v)* <nq> q* <nb|-> b* <no> (<F|P|S> <pattern> <nb> b*)* <nk> (<c|g|r|h> <name> <nl> (k v)*)* | op*
 //   ops: R<i>  I<i>:<u64>  A<i>:<u64>  S<i>:<f>  P<i>:<f>  M<i>:<f>  X<i>:<bits hex>  H<i>:<f>
 //        D<c|g|h>:<name>:<unit|->:<text>   U   N
-//   T <threads> <per_thread> <nkeys> <hist 0|1> <rounds>     free-running stress (see stress())
+//   T <threads> <per_thread> <nkeys> <hist 0|1> <rounds> <gap_us>   free-running stress (see stress())
 //   V <nkeys> <per_round> <rounds> <hist 0|1> <renderers>    visibility stress (see visibility())
 // stdout, one line per case:
 //   C: renderings joined by '|'; a rendering = '@' + samples joined by ';' (or "E<hex msg>" if unreadable);
@@ -14,7 +14,8 @@
 //        help: '-' | 'h'<hex>;  labels: hex of each  name="value"  joined by '.';
 //        extra: n | i (+Inf) | l<f64 bits hex> | q<f64 bits hex>;
 //        value: u<u64> | f<f64 bits hex as parsed back by str::parse::<f64>> | x (quantile value)
-//   T: recorded=<n per key,..> counts=<..> ctr_expected=<..> ctr=<..> renders=<n> nonmonotone=<n> over=<n>
+//   T: recorded=<n per key,..> counts=<..> ctr=<..> renders=<n> drains=<n> nonmonotone=<n> over=<n>
+//      (drains = render() + run_upkeep() calls STARTED while recording threads were still running)
 //   V: rounds=<n> renders=<n> short=<n> over=<n> settled_bad=<n> first=<round:key:expected:count:sum bits|->
 //   P<hex of panic message> if the case panicked.
 use metrics::{Key, KeyName, Label, Recorder, Unit};
@@ -251,7 +252,8 @@ fn run_case(line: &str) -> String {
 // ------------------------------------------------------------------ free-running stress
 // `threads` recording threads each record `per_thread` samples (value 1.0) round-robin into `nkeys`
 // histogram keys and increment one counter per key by 1 per sample, while one thread loops
-// render() / run_upkeep() until they are done; one final render() after the join.
+// render() / run_upkeep(), pausing `gap_us` microseconds between two drains, until they are done; one
+// final render() after the join.
 fn count_of(text: &str, name: &str) -> Option<u64> {
     for l in text.lines() {
         if let Some(r) = l.strip_prefix(name) {
@@ -269,10 +271,12 @@ fn stress(line: &str) -> String {
     let nkeys = t.n();
     let hist = t.n() == 1;
     let rounds = t.n();
+    let gap_us = t.n() as u64;
     let mut recorded = vec![0u64; nkeys];
     let mut counts = vec![0u64; nkeys];
     let mut ctrs = vec![0u64; nkeys];
     let mut renders = 0u64;
+    let mut drains = 0u64;
     let mut nonmonotone = 0u64;
     let mut over = 0u64;
     for _ in 0..rounds {
@@ -287,7 +291,7 @@ fn stress(line: &str) -> String {
             n
         };
         let totals: Vec<u64> = (0..nkeys).map(total_per_key).collect();
-        let (r_renders, r_nonmono, r_over) = std::thread::scope(|s| {
+        let (r_renders, r_drains, r_nonmono, r_over) = std::thread::scope(|s| {
             let mut hs = Vec::new();
             for th in 0..threads {
                 let rec = &rec;
@@ -306,9 +310,10 @@ fn stress(line: &str) -> String {
             let totals = &totals;
             let r = s.spawn(move || {
                 let mut last = vec![0u64; nkeys];
-                let (mut n, mut nonmono, mut over) = (0u64, 0u64, 0u64);
+                let (mut n, mut nd, mut nonmono, mut over) = (0u64, 0u64, 0u64, 0u64);
                 let mut i = 0u64;
                 while !done.load(Ordering::Acquire) {
+                    nd += 1;
                     if i % 3 == 2 { handle.run_upkeep(); } else {
                         let text = handle.render();
                         n += 1;
@@ -321,14 +326,16 @@ fn stress(line: &str) -> String {
                         }
                     }
                     i += 1;
+                    if gap_us > 0 { std::thread::sleep(std::time::Duration::from_micros(gap_us)); }
                 }
-                (n, nonmono, over)
+                (n, nd, nonmono, over)
             });
             for h in hs { h.join().unwrap(); }
             done.store(true, Ordering::Release);
             r.join().unwrap()
         });
         renders += r_renders;
+        drains += r_drains;
         nonmonotone += r_nonmono;
         over += r_over;
         let text = handle.render();
@@ -340,7 +347,7 @@ fn stress(line: &str) -> String {
         }
     }
     let j = |v: &Vec<u64>| v.iter().map(|x| x.to_string()).collect::<Vec<_>>().join(",");
-    format!("recorded={} counts={} ctr={} renders={} nonmonotone={} over={}", j(&recorded), j(&counts), j(&ctrs), renders, nonmonotone, over)
+    format!("recorded={} counts={} ctr={} renders={} drains={} nonmonotone={} over={}", j(&recorded), j(&counts), j(&ctrs), renders, drains, nonmonotone, over)
 }
 
 // ------------------------------------------------------------------ visibility stress
